@@ -40,8 +40,44 @@ HOST_FAMILIES = {
     "ghio": ["github.io", "a.github.io", "b.a.github.io", "io"],
     "lang": ["lemonde.fr", "fr.lemonde.fr", "en-us.lemonde.fr", "m.lemonde.fr", "amp.lemonde.fr"],
     "special": ["localhost", "127.0.0.1", "lemonde.fr"],
+    "platform": ["facebook.com", "m.facebook.com", "fr-fr.facebook.com", "www.youtube.com", "m.youtube.com", "youtu.be", "www.youtube-nocookie.com", "fb.me", "facebook.co.uk", "lemonde.fr"],
 }
-FAMILY_ORDER = ["fr", "couk", "idn", "ghio", "lang", "special"]
+FAMILY_ORDER = ["fr", "couk", "idn", "ghio", "lang", "special", "platform"]
+PLATFORM_SEEDS = ["/watch?v=abcdefghijk", "/abcdefghijk", "/someuser/posts/1234567890", "/story.php?story_fbid=12345&id=6789", "/channel/UCabcdefghijklmnopqrstuv",
+                  "/", "", "/watch", "/watch?v=", "/watch?v=abc", "/v/abcdefghijk", "/embed/abcdefghijk", "/embed/", "/user/someone", "/c/someone/videos", "/@someone",
+                  "/channel/", "/playlist?list=PLabcdefghijk", "/shorts/abcdefghijk", "/shorts/", "/watch?v=abcdefghijk&list=PLx#t=3", "/#v=abcdefghijk", "/attribution_link?u=%2Fwatch%3Fv%3Dabcdefghijk",
+                  "/permalink.php?story_fbid=1&id=2", "/permalink.php", "/groups/123/permalink/456/", "/groups/", "/groups/somegroup", "/photo.php?fbid=1", "/photo.php", "/profile.php?id=4", "/profile.php",
+                  "/people/Some-Name/123", "/people/", "/pages/Some-Page/123", "/someuser", "/someuser/", "/someuser/videos/123/", "/someuser/videos/", "/watch/?v=123", "/watch/", "/l.php?u=http%3A%2F%2Flemonde.fr%2Fa&h=x", "/l.php",
+                  "/events/123", "/notes/someone/title/123", "/123", "/0", "/story.php", "/sharer/sharer.php?u=http%3A%2F%2Flemonde.fr", "/dialog/share?href=x", "/hashtag/x", "/x/posts/pfbid0abc", "/x/posts/"]
+PLATFORM_FULL = ["/groups/123/permalink/456/", "/groups/somegroup/posts/456/", "/someuser/posts/123", "/someuser/videos/vb.1/123/", "/someuser/photos/a.1/2/?type=3",
+                 "/photo.php?fbid=1&set=a.2", "/permalink.php?story_fbid=1&id=2", "/story.php?story_fbid=1&id=2", "/profile.php?id=4", "/people/Some-Name/123", "/watch/?v=123",
+                 "/watch/live/?v=1", "/pages/Some/123", "/events/1/permalink/2", "/media/set/?set=a.1", "/notes/a/b/1", "/l.php?u=http%3A%2F%2Flemonde.fr", "/a.php",
+                 "/watch?v=abcdefghijk&list=PL1", "/v/abcdefghijk", "/embed/abcdefghijk", "/shorts/abcdefghijk", "/channel/UCabcdefghijklmnopqrstuv/videos", "/user/someone/videos",
+                 "/c/someone", "/@someone/videos", "/playlist?list=PL1", "/redirect?q=lemonde.fr", "/live/abcdefghijk", "/watch#v=abcdefghijk", "/#/watch?v=abcdefghijk",
+                 "//watch?v=abcdefghijk", "/watch?V=abcdefghijk", "/watch?v=abcdefghijkXYZ"]
+
+
+def _platform_paths():
+    """Every platform URL shape cut at each '/' and with each part of its query
+    missing: the shapes the platform parsers index into."""
+    paths = set(PLATFORM_SEEDS)
+    for f in PLATFORM_FULL:
+        p, _, q = f.partition("?")
+        segs = p.split("/")
+        for i in range(1, len(segs) + 1):
+            pre = "/".join(segs[:i])
+            for tail in ("", "/"):
+                paths.add(pre + tail)
+                if q:
+                    paths.add(pre + tail + "?" + q)
+                    paths.add(pre + tail + "?")
+                    for item in q.split("&"):
+                        paths.add(pre + tail + "?" + item)
+                        paths.add(pre + tail + "?" + item.split("=")[0] + "=")
+    return sorted(paths)
+
+
+PLATFORM_PATHS = _platform_paths()
 # a literal '|' inside a stem is legal as long as it is not followed by a stem
 # marker ('p:' etc.): the serialised format only splits before markers
 PATHS = ["", "/", "/a", "/a/", "/a/b", "/a//b", "/a/b/", "/a/index.html", "/a/./b", "/A", "/%61", "/a/b.html", "/a/b/c", "/a|b", "/a/Foo|Bar", "/a|b/c", "/a||b", "/a|/b",
@@ -66,7 +102,7 @@ def variant_kwargs(cls, crng):
         if crng.random() < 0.3:
             kw["default_protocol"] = crng.choice(["http", "https", "ftp"])
     elif cls == "NormalizedLRUTrie":
-        for k in ("strip_trailing_slash", "sort_query", "strip_index", "normalize_amp", "infer_redirection", "strip_irrelevant_subdomains", "quoted", "strip_protocol", "strip_authentication"):
+        for k in ("strip_trailing_slash", "sort_query", "strip_index", "normalize_amp", "infer_redirection", "strip_irrelevant_subdomains", "quoted", "strip_protocol", "strip_authentication", "platform_aware", "fix_common_mistakes"):
             if crng.random() < 0.3:
                 kw[k] = crng.random() < 0.5
         if crng.random() < 0.2:
@@ -100,6 +136,11 @@ def build_universe(crng, size):
     for h in hosts:
         for p in paths[: crng.choice([3, 4, len(paths)])]:
             push(schemes[0] + h + p)
+    if "platform" in fams:
+        for h in hosts:
+            if h in HOST_FAMILIES["platform"] and h != "lemonde.fr":
+                for p in crng.sample(PLATFORM_PATHS, 3):
+                    push(schemes[0] + h + p)
     # URLs that only carry another URL of the universe as an obvious redirection
     # target (the normalising variants resolve them: same string, same key)
     from urllib.parse import quote
